@@ -23,6 +23,10 @@ type linType struct {
 	obs    []string // sequential observation after all threads finished
 }
 
+// bigInits: additional, large initial states per kind (thresholds a change introduced into the source); explored
+// only with the 2 x 1 programs and observed without dumping the contents
+var bigInits = map[string][][]string{}
+
 func linTypes() []linType {
 	types := []linType{
 		{"queue", nil, [][]string{{}, {"enqueue 1"}, {"enqueue 1", "enqueue 2"}},
@@ -62,7 +66,7 @@ func linTypes() []linType {
 		}
 		for i := range types {
 			if types[i].kind == "heap" {
-				types[i].inits = append(types[i].inits, []string{"fromslice " + ints(vals) + " lt"})
+				bigInits["heap"] = append(bigInits["heap"], []string{"fromslice " + ints(vals) + " lt"})
 			}
 		}
 	}
@@ -155,7 +159,12 @@ func main() {
 						return
 					}
 				}
-				for _, init := range lt.inits {
+				inits := lt.inits
+				if len(shape) == 2 && ncalls == 2 {
+					inits = append(append([][]string{}, lt.inits...), bigInits[lt.kind]...)
+				}
+				for ii, init := range inits {
+					big := ii >= len(lt.inits)
 					totalProg++
 					seen := map[uint64]bool{}
 					var recs []callRec
@@ -208,6 +217,9 @@ func main() {
 							sb.WriteString("deadlock => T\n")
 						} else {
 							for _, op := range lt.obs {
+								if big && op == "values" {
+									continue
+								}
 								res := guard(func() string { return runner.Do(strings.Fields(op)) })
 								fmt.Fprintf(&sb, "h 99 %d %d %s => %s\n", 1000000+2*obsN, 1000001+2*obsN, op, res)
 								obsN++
